@@ -79,6 +79,42 @@ def m_defaultdict(factory):
     return DD()
 
 
+_STDLIB = None
+
+
+def stdlib_table():
+    global _STDLIB
+    if _STDLIB is None:
+        import collections
+        import operator
+
+        _STDLIB = {
+            "itertools": {n: getattr(itertools, n) for n in ("count", "repeat", "cycle", "starmap", "accumulate", "groupby", "islice", "product", "permutations", "combinations",
+                                                             "combinations_with_replacement", "zip_longest", "takewhile", "dropwhile", "tee", "compress", "filterfalse")},
+            "functools": {"reduce": functools.reduce, "partial": functools.partial, "lru_cache": (lambda *a, **k: (a[0] if a and callable(a[0]) else (lambda f: f))), "cache": (lambda f: f), "wraps": (lambda f: (lambda g: g))},
+            "collections": {"defaultdict": m_defaultdict, "deque": m_deque, "Counter": m_counter, "OrderedDict": dict},
+            "operator": {n: getattr(operator, n) for n in ("itemgetter", "attrgetter", "or_", "and_", "xor", "not_", "add", "sub", "mul", "eq", "ne", "lt", "le", "gt", "ge", "contains")},
+            "queue": {"Queue": MQueue},
+            "math": {n: getattr(__import__("math"), n) for n in ("ceil", "floor", "log2", "log", "sqrt", "inf")},
+        }
+        _STDLIB["itertools"]["chain"] = MChain()
+    return _STDLIB
+
+
+def bind_stdlib_imports(tree, env):
+    """`from itertools import count`, `import itertools as it`, ... -> pure functions / small models."""
+    tab = stdlib_table()
+    for st in ast.walk(tree):
+        if isinstance(st, ast.ImportFrom) and st.module in tab:
+            for al in st.names:
+                if al.name in tab[st.module]:
+                    env.setdefault(al.asname or al.name, tab[st.module][al.name])
+        elif isinstance(st, ast.Import):
+            for al in st.names:
+                if al.name in tab:
+                    env.setdefault(al.asname or al.name, NS(**{k: v for k, v in tab[al.name].items()}))
+
+
 def bind_module_constants(tree, env):
     """Evaluate module-level `NAME = <expr>` statements whose value is computable from literals, earlier
     constants and the model classes already in env (lookup tables, literal lists, BlackBox definitions)."""
@@ -336,13 +372,14 @@ class Package:
         bi = BlockInterp(env, max_steps=self.max_steps)
         bi.me.env = env  # share the dict: closures see functions defined later in the module
         tree = self.repo.tree[rel]
-        bind_module_constants(tree, env)
+        bind_stdlib_imports(tree, env)
+        # functions first (they resolve names at call time), then constants in source order (lookup tables may
+        # name functions defined anywhere in the module)
         for st in tree.body:
             if isinstance(st, ast.FunctionDef):
                 key = (rel, st.name)
                 env[st.name] = self.overrides[key] if key in self.overrides else bi.make_closure(st)
-            elif isinstance(st, ast.ClassDef):
-                continue
+        bind_module_constants(tree, env)
         self._bi = bi
         return env
 
